@@ -36,7 +36,7 @@ TECHNIQUE = ("Lean 4 proofs over a hand transcription of FormatterToXMLUnicode (
              "through the real plain serializer against the real indenting serializer; ten transcoder-backed multi-byte / "
              "stateful encodings and 23 single-byte encodings (both serializers) through the real code, judged by independent decoders (Python codecs, own SCSU decoder) "
              "and an expat re-parse")
-LEVEL_TEXT = ("Machine-checked (51 theorems, all proved): UTF-8/UTF-16 encode-decode round trips for every scalar sequence; "
+LEVEL_TEXT = ("Machine-checked (56 theorems, all proved): UTF-8/UTF-16 encode-decode round trips for every scalar sequence; "
               "transparency and bounds of both buffer layers for every write sequence (no chunk splits an item), and with the "
               "bulk-write shape read from the source (flushBuffer() before a direct write of a run longer than the buffer, in "
               "XalanUTF8Writer, XalanUTF16Writer and XalanOutputStream::write) the units handed to the transcoder are the units "
@@ -47,7 +47,11 @@ LEVEL_TEXT = ("Machine-checked (51 theorems, all proved): UTF-8/UTF-16 encode-de
               "surrogate (stream_no_split_pair; counterexample for a hold-back that depends on the fill level); for every converter "
               "modelled as a shift-state machine, chunked transcoding with canTranscodeTo probes in between equals one-shot "
               "transcoding when the probes do not touch the converter (transcoding_chunked_eq_oneshot; counterexample for "
-              "the shared, reset-on-probe converter); the raw-text marker PI makes exactly the next non-empty text event "
+              "the shared, reset-on-probe converter); the transcoding writer's bulk write in its pair-aware form writes every "
+              "scalar as itself or as one reference (other_bulk_pair_aware; kernel-checked counterexample for the unit-wise form: "
+              "two surrogate references, rejected by the reader); with throwIfNotCharacters in front of the bulk writes a name, "
+              "PI target or unescaped text that is written at all was well-formed UTF-16 without U+0000/U+FFFE/U+FFFF "
+              "(bulk_output_implies_wellformed; counterexample without it); the raw-text marker PI makes exactly the next non-empty text event "
               "unescaped and is then cleared, so every text event not preceded by it is escaped (raw_marker_used_once; "
               "counterexample without the reset); getMaximumCharacterValue(encoding) of the legacy serializer stays below the "
               "first unrepresentable scalar of every listed single-byte / UTF encoding (max_char_within_repertoire; Shift_JIS "
@@ -101,6 +105,11 @@ THEOREMS = [
     "XalanModel.Props.C04.transcoding_chunked_eq_oneshot",
     "XalanModel.Props.C04.generated_probe_isolation",
     "XalanModel.Props.C04.probe_shared_converter_counterexample",
+    "XalanModel.Props.C04.other_bulk_pair_aware",
+    "XalanModel.Props.C04.other_bulk_unitwise_counterexample",
+    "XalanModel.Props.C04.bulk_output_implies_wellformed",
+    "XalanModel.Props.C04.bulk_check_accepts_legal",
+    "XalanModel.Props.C04.bulk_unchecked_counterexample",
     "XalanModel.Props.C04.generated_raw_resets",
     "XalanModel.Props.C04.raw_only_after_marker",
     "XalanModel.Props.C04.raw_marker_used_once",
@@ -495,6 +504,8 @@ def run(ctx):
     cases += long_run_cases(ctx.thorough)
     cases += raw_marker_cases(ctx.thorough)
     cases += periodic_pair_cases(ctx.thorough)
+    cases += raw_supplementary_cases(ctx.thorough)
+    cases += bulk_noncharacter_cases(ctx.thorough)
     cases += forbidden_control_cases(ctx.thorough)
     if ctx.thorough:
         cases += exhaustive_cases()
@@ -839,6 +850,50 @@ def periodic_pair_cases(thorough):
                         doc2 = ("el", G.u("r"), [(G.u("k"), periodic_units(509 + a - hdr - 4, sp))], [])
                         for k in kinds:
                             out.append((k, enc, ver, doc2, "periodic"))
+    return out
+
+
+def other_bulk_pair_aware():
+    """the variant of XalanOtherEncodingWriter::write(chars, n) the translator read from the working tree"""
+    try:
+        return "def otherBulkPairAware : Bool := true" in open(
+            os.path.join(common.ROOT, "lean", "XalanModel", "Generated", "C04_Tables.lean")).read()
+    except OSError:
+        return False
+
+
+def raw_supplementary_cases(thorough):
+    """directed: unescaped text (charactersRaw, and the marker PI + characters / cdata) with supplementary characters and
+    with BMP characters the encoding lacks: the writer's bulk write must write ONE reference per character"""
+    out = []
+    txt = G.u("a\U0001F600b\u20acc\U00010000")
+    docs = [_el(("r", txt)), _el(("rt", txt), ("t", G.u("<"), None)), _el(("rc", txt)),
+            _el(("t", [120] * 505, None), ("r", txt * 3))]
+    # as long as XalanOtherEncodingWriter::write(chars, n) goes unit by unit, UTF-32BE is left out: what ICU answers to
+    # canTranscodeTo(half a pair) depends on the converter's pending state, which the unit-wise model does not have
+    pair_aware = other_bulk_pair_aware()
+    for enc in ENCODINGS:
+        if enc == "UTF-32BE" and not pair_aware:
+            continue
+        for ver in (VERSIONS if thorough else ["1.0"]):
+            for d in docs:
+                out.append(("U", enc, ver, d, "raw-supplementary"))
+    return out
+
+
+def bulk_noncharacter_cases(thorough):
+    """directed: what is handed to the writers' BULK writes - element / attribute names, PI targets, unescaped text
+    (charactersRaw and marker + characters / cdata) - with an unpaired surrogate or U+FFFF / U+FFFE: no XML document has
+    them, the only right answer is an error"""
+    out = []
+    bads = [[97, 0xDC00, 98], [97, 0xD800], [0xD800, 98], [97, 0xFFFF]] + ([[97, 0xFFFE, 98], [0xDC00, 0xD800]] if thorough else [])
+    for enc in ENCODINGS:
+        for b in bads:
+            docs = [_el(("el", b, [], [])), ("el", G.u("r"), [(b, G.u("v"))], []), _el(("p", b, G.u("d")))]
+            if enc != "UTF-32BE" or other_bulk_pair_aware():      # see raw_supplementary_cases
+                docs += [_el(("r", b)), _el(("rt", b)), _el(("rc", b))]
+            for d in docs:
+                out.append(("U", enc, "1.0", d, "bulk-nonchar"))
     return out
 
 
